@@ -1,10 +1,10 @@
 //! C12: text, binary and node-list serialisation round-trip under any I/O chunking.
 //!
 //! Case kinds (inputs => observed):
-//!   C12.mem    <bdd>                       => <to_string> <hex to_bytes> <rt_text> <rt_bytes> <rt_nodes>   (1 / 0 / err / panic)
-//!   C12.wtext  <bdd> <script>              => <ok|err|panic> <hex of what reached the sink> <events consumed> <flushes>
+//!   C12.mem    <bdd>                       => <to_string (x:hex if it contains blanks)> <hex to_bytes> <rt_text> <rt_bytes> <rt_nodes>   (1 / 0 / err / panic)
+//!   C12.wtext  <bdd> <script>              => <ok|err|panic> <hex of what reached the sink> <events consumed> <flushes> <sink of an ok call read back == b>
 //!   C12.wbytes <bdd> <script>              => same
-//!   C12.rtext  <orig bdd|~> <hex> <script> => <ok|err|panic> <bdd|~> <events consumed> <sizes asked by std, one per read call>
+//!   C12.rtext  <orig bdd|~> <hex> <script> => <ok|err|panic> <bdd|~> <events consumed> <sizes asked by std, one per read call> <data is the library's own form of orig>
 //!   C12.rbytes <orig bdd|~> <hex> <script> => same
 //!   C12.huge   <par|cnt> <p1> <p2> <wscript> <rscript> <failpos> => <size> <built> then for bytes and for text:
 //!              <ok|panic>:<len>:<fnv of to_bytes/to_string>  <kind>:<equal>:<nodes>:<fnv of re-read nodes> (from_bytes/from_string)
@@ -50,13 +50,20 @@ fn run_inner(key: &str, a: &[String], out: &mut Out) {
             let rt_text = match &text { None => s("panic"), Some(x) => match catch(|| Bdd::from_string(x)) { None => s("panic"), Some(b2) => flag(b2 == b) } };
             let rt_bytes = match &bytes { None => s("panic"), Some(x) => match catch(|| Bdd::from_bytes(&mut &x[..])) { None => s("panic"), Some(b2) => flag(b2 == b) } };
             let rt_nodes = match catch(|| Bdd::from_nodes(&b.clone().to_nodes())) { None => s("panic"), Some(Err(_)) => s("err"), Some(Ok(b2)) => flag(b2 == b) };
-            out.case(key, a, &[text.unwrap_or(s("panic")), bytes.map(|x| hex(&x)).unwrap_or(s("panic")), rt_text, rt_bytes, rt_nodes]);
+            out.case(key, a, &[text.map(|x| text_field(&x)).unwrap_or(s("panic")), bytes.map(|x| hex(&x)).unwrap_or(s("panic")), rt_text, rt_bytes, rt_nodes]);
         }
         "C12.wtext" | "C12.wbytes" => {
             let b = match build(key, a, &a[0], out) { Some(b) => b, None => return };
             let mut w = SWriter::new(&parse_script(&a[1]));
             let r = catch(|| { let dw: &mut dyn Write = &mut w; if key == "C12.wtext" { b.write_as_string(dw) } else { b.write_as_bytes(dw) } });
-            out.case(key, a, &[s(kind(&r)), hex(&w.out), w.sp.to_string(), w.flushes.to_string()]);
+            // what reached the sink of a successful call, read back by the library's own plain reader
+            let rt = if matches!(r, Some(Ok(_))) {
+                let sink = w.out.clone();
+                match catch(|| { let mut sl: &[u8] = &sink; let dr: &mut dyn Read = &mut sl; if key == "C12.wtext" { Bdd::read_as_string(dr).ok() } else { Bdd::read_as_bytes(dr).ok() } }) {
+                    None => s("panic"), Some(None) => s("err"), Some(Some(b2)) => flag(b2 == b),
+                }
+            } else { s("-") };
+            out.case(key, a, &[s(kind(&r)), hex(&w.out), w.sp.to_string(), w.flushes.to_string(), rt]);
         }
         "C12.rtext" | "C12.rbytes" => {
             let data = unhex(&a[1]);
@@ -68,7 +75,21 @@ fn run_inner(key: &str, a: &[String], out: &mut Out) {
                 let r = catch(|| { let dr: &mut dyn Read = &mut rd; Bdd::read_as_bytes(dr) });
                 (kind(&r), r.and_then(|x| x.ok()))
             };
-            out.case(key, a, &[s(k), res.map(|b| fmt_bdd(&b)).unwrap_or(s("~")), rd.sp.to_string(), fmt_list(&rd.wants)]);
+            // is the data what the library's own writer produces for `orig` (text: modulo whitespace)? Only then is the
+            // case an instance of "reading back what write_* produced".
+            let libform = if a[0] == "~" { s("-") } else {
+                match catch(|| bdd_exact(&parse_triples(&a[0]))).flatten() {
+                    None => s("0"),
+                    Some(b) => {
+                        if key == "C12.rbytes" { flag(catch(|| b.to_bytes()).map(|x| x == data).unwrap_or(false)) }
+                        else {
+                            let strip = |t: &str| -> String { t.chars().filter(|c| !c.is_whitespace()).collect() };
+                            match (std::str::from_utf8(&data), catch(|| b.to_string())) { (Ok(d), Some(t)) => flag(strip(d) == strip(&t)), _ => s("0") }
+                        }
+                    }
+                }
+            };
+            out.case(key, a, &[s(k), res.map(|b| fmt_bdd(&b)).unwrap_or(s("~")), rd.sp.to_string(), fmt_list(&rd.wants), libform]);
         }
         "C12.big" => {
             let (n, k, seed): (usize, usize, u64) = (a[0].parse().unwrap(), a[1].parse().unwrap(), a[2].parse().unwrap());
@@ -105,7 +126,7 @@ fn run_inner(key: &str, a: &[String], out: &mut Out) {
                 push(r == Some(true));
                 let mut w = SWriter::new(&sc);
                 let r = catch(|| { let dw: &mut dyn Write = &mut w; if data_is_text { b.write_as_string(dw).is_err() } else { b.write_as_bytes(dw).is_err() } });
-                push(r == Some(true) && data.starts_with(&w.out));
+                push(r == Some(true));
             }
             out.case(key, a, &[t.len().to_string(), bytes.len().to_string(), text.len().to_string(), flags]);
         }
